@@ -17,6 +17,7 @@ an integer payload and an ordered list of references to other objects.
     commitf rm before|after begin|commit|vote|finish           commit with a failing 2nd resource manager
     commitf store j | commitf vote                             commit with a storage fault (j-th store / vote)
     commitf pickle k                                           commit while the state of object k cannot be pickled
+    commitf newoid k | spf newoid k                            commit / savepoint while the storage's k-th new_oid() raises
     ext i v | peek i                                           second connection: commit payload v / read
 
 One observation line per op:  <result> | <state vector>  (failed commit: <result> | <vector after the
@@ -376,6 +377,9 @@ class World:
             import c11_classes
             c11_classes.PICKLE_FAIL.add(id(self.objs[int(fail[1])]))
             patched.append('pickle')
+        elif fail and fail[0] == 'newoid':
+            self.patch_new_oid(int(fail[1]))
+            patched.append('newoid')
         elif fail and fail[0] == 'vote':
             had = inst.__dict__.get('tpc_vote')
 
@@ -393,6 +397,8 @@ class World:
                         del inst.store
                     elif p == 'pickle':
                         c11_classes.PICKLE_FAIL.clear()
+                    elif p == 'newoid':
+                        self.unpatch_new_oid()
                     else:
                         if p[1] is None:
                             del inst.tpc_vote
@@ -457,15 +463,45 @@ class World:
         self.conn.cacheMinimize()
         return 'ok'
 
+    def patch_new_oid(self, k):
+        """the storage's new_oid() raises at its k-th call from now on (once)"""
+        from c11_classes import Injected
+        inst = self.conn._normal_storage
+        orig, cnt = inst.new_oid, [0]
+
+        def new_oid(*a, **kw):
+            cnt[0] += 1
+            if cnt[0] - 1 == k:
+                raise Injected('new_oid')
+            return orig(*a, **kw)
+        inst.new_oid = new_oid
+        # (a TmpStore copies the storage's new_oid at its creation: patch an existing one too)
+        tmp = self.conn._savepoint_storage
+        self._tmp_patched = None
+        if tmp is not None:
+            self._tmp_patched = (tmp, tmp.new_oid)
+            tmp.new_oid = new_oid
+
+    def unpatch_new_oid(self):
+        self.conn._normal_storage.__dict__.pop('new_oid', None)
+        if getattr(self, '_tmp_patched', None):
+            tmp, old = self._tmp_patched
+            tmp.new_oid = old
+        self._tmp_patched = None
+
     def op_spf(self, fail):
-        """transaction.savepoint() while the state of one object cannot be pickled"""
+        """transaction.savepoint() while the state of one object cannot be pickled / new_oid() fails"""
         import c11_classes
-        c11_classes.PICKLE_FAIL.add(id(self.objs[int(fail[1])]))
+        if fail[0] == 'newoid':
+            self.patch_new_oid(int(fail[1]))
+        else:
+            c11_classes.PICKLE_FAIL.add(id(self.objs[int(fail[1])]))
         try:
             try:
                 self.sps.append(self.tm.savepoint())
             finally:
                 c11_classes.PICKLE_FAIL.clear()
+                self.unpatch_new_oid()
         except Exception as e:
             self.after_boundary()
             r = 'fail:' + errname(e)
@@ -784,8 +820,9 @@ class Oracle:
             if any(r in self.lost for r in newc):
                 raise Tainted()
             pick = self.dirty | {i for i in self.explicit if i not in self.saved} | set(newc)
-            if self.joined and int(t[2]) in pick:
-                self.lastW, self.lastnew, self.lastfail = sorted(pick), list(newc), ['pickle', t[2]]
+            if self.joined and ((t[1] == 'pickle' and int(t[2]) in pick) or
+                                (t[1] == 'newoid' and int(t[2]) < len(newc))):
+                self.lastW, self.lastnew, self.lastfail = sorted(pick), list(newc), [t[1], t[2]]
                 self.failing = True
                 self.fail_explicit = set(self.explicit)
                 self.fail_new = {i for i, m in self.member.items() if m == 'n'} | set(newc)
@@ -880,6 +917,8 @@ class Oracle:
                     kinds.add('Injected')
                 elif fail[0] == 'vote' and self.joined:
                     kinds.add('Injected')
+                elif fail[0] == 'newoid' and self.joined and int(fail[1]) < len(newc):
+                    kinds.add('Injected')       # the commit asks for an oid for every new object it discovers
                 elif fail[0] == 'pickle' and self.joined and int(fail[1]) in (
                         self.dirty | {i for i in self.explicit if i not in self.saved} | set(newc)):
                     kinds.add('Injected')       # the object is pickled by this commit
@@ -1008,7 +1047,7 @@ class Oracle:
         store) or the injected fault of the j-th store"""
         f = self.lastfail
         return self.lastkind == 'Conflict' or (self.lastkind == 'Injected' and bool(f)
-                                               and f[0] in ('store', 'pickle'))
+                                               and f[0] in ('store', 'pickle', 'newoid'))
 
 
 def judge(case, real, pid):
@@ -1205,8 +1244,18 @@ def gen_scenario(rng, pid, kind):
         # a commit that fails while the state of one object is pickled — the registered container, an
         # implicitly added object in the middle of the writer's stack, or the last one — then the same
         # objects are linked again (the "repair" touches no object), committed, and read elsewhere
-        t = rng.randrange(8)
-        if t == 7:
+        t = rng.randrange(9)
+        if t == 8:
+            # the storage's new_oid() fails while the commit discovers new objects: afterwards every new object
+            # belongs to nobody (another connection may add it) and can be attached again
+            ops = ['link 0 %d' % a, 'link %d %d' % (a, b)]
+            if rng.random() < 0.5:
+                ops += ['link 0 %d' % c]
+            if rng.random() < 0.3:
+                ops += ['add %d' % c] if ops[-1] != 'link 0 %d' % c else ['link %d %d' % (c, b)]
+            ops += ['commitf newoid %d' % rng.choice([0, 0, 1, 1, 2]), 'xadd %d' % a, 'xadd %d' % b, 'link 0 %d' % a,
+                    'link %d %d' % (a, b), 'commit']
+        elif t == 7:
             # Connection.sync() with pending changes and added objects: it aborts them
             ops = ['link 0 %d' % a, 'commit', 'mod %d %d' % (a, val()), rng.choice(['add %d' % b, 'link %d %d' % (a, b)]),
                    'sync', 'read %d' % a, 'close', 'open', 'mod 0 %d' % val(), 'commit']
@@ -1264,8 +1313,14 @@ def gen_scenario(rng, pid, kind):
             ops.insert(pos, rng.choice(['read %d' % i, 'mod %d %d' % (i, val()), 'peek %d' % i]))
         ops += ['read %d' % i for i in range(n)] + ['commit'] + ['peek %d' % i for i in range(n)]
         return dict(kind=kind, n=n, ops=ops)
-    t = rng.randrange(10)
-    if t == 9:      # readCurrent on an object created after a savepoint, rollback, commit: nothing is left to check
+    t = rng.randrange(11)
+    if t == 10:     # new_oid() fails while a savepoint (after an earlier one) discovers new objects
+        ops = ['mod 0 %d' % val(), 'sp', 'link 0 %d' % a, 'link %d %d' % (a, b)]
+        if rng.random() < 0.5:
+            ops += ['link 0 %d' % c]
+        ops += ['spf newoid %d' % rng.choice([0, 1, 1, 2]), 'xadd %d' % a, 'xadd %d' % b, 'link 0 %d' % a,
+                'link %d %d' % (a, b), rng.choice(['sp', 'commit']), 'commit']
+    elif t == 9:      # readCurrent on an object created after a savepoint, rollback, commit: nothing is left to check
         ops = ['mod 0 %d' % val(), 'sp']
         if rng.random() < 0.5:
             ops += ['add %d' % a, 'readcur %d' % a]
